@@ -214,4 +214,74 @@ def msumRun (cap buf p : Nat) (xs : List Int) : Bool × Bool × List Int :=
   let (s, term) := roundRobin N 6 (40 * (xs.length + p + 4)) (msumInit xs p)
   (term, allHaltedB N 6 s, (s.procs 5).1.reg)
 
+/-! ### `trend.Ema` / `Rma` / `Smma`: the reading end of the input is handed over
+
+    go func() { before, ok := <-sma.Compute(helper.Head(c, period)); if !ok { return }
+                result <- before; for n := range c { before = upd(before, n); result <- before } }()
+
+    `helper.Head` reads the first `period` values of `c`; the indicator's own goroutine reads the rest of `c`, but only after
+    it has received the seed.  The Sma pipeline between `Head` and the seed is represented by ONE sequential process
+    (`seedBox`: it emits `seed window` for every full window, as Sma does; its inner pipeline is `msumNet`). -/
+
+/-- `Head(in, out, count)`: copy up to `count` values, then close; `reg` holds the remaining count -/
+def headM (inp out : Nat) (l : Loc) : A :=
+  match l.pc with
+  | 0 => if l.reg.headD 0 ≤ 0 then .close out ⟨3, []⟩
+         else .recv inp (fun r => match r with | some v => ⟨1, [l.reg.headD 0 - 1, v]⟩ | none => ⟨2, []⟩)
+  | 1 => .send out (l.reg.getD 1 0) ⟨0, [l.reg.headD 0]⟩
+  | 2 => .close out ⟨3, []⟩
+  | _ => .halt
+
+/-- the seed pipeline (Sma) as one process: `reg` is the window of the last `p` values -/
+def seedBox (p : Nat) (seed : List Int → Int) (inp out : Nat) (l : Loc) : A :=
+  match l.pc with
+  | 0 => .recv inp (fun r => match r with
+      | some v => if l.reg.length + 1 < p then ⟨0, l.reg ++ [v]⟩ else ⟨1, (l.reg ++ [v]).drop (l.reg.length + 1 - p)⟩
+      | none => ⟨2, []⟩)
+  | 1 => .send out (seed l.reg) ⟨0, l.reg⟩
+  | 2 => .close out ⟨3, []⟩
+  | _ => .halt
+
+/-- the indicator's own goroutine: wait for the seed, emit it, then fold the rest of the input -/
+def recurMain (upd : Int → Int → Int) (seedc inp out : Nat) (l : Loc) : A :=
+  match l.pc with
+  | 0 => .recv seedc (fun r => match r with | some v => ⟨1, [v]⟩ | none => ⟨4, []⟩)
+  | 1 => .send out (l.reg.headD 0) ⟨2, l.reg⟩
+  | 2 => .recv inp (fun r => match r with | some n => ⟨1, [upd (l.reg.headD 0) n]⟩ | none => ⟨4, []⟩)
+  | 4 => .close out ⟨5, []⟩
+  | _ => .halt
+
+/-- processes: 0 producer, 1 Head, 2 the seed pipeline, 3 the indicator's goroutine, 4 reader.
+    channels: 0 c (read by Head, later by process 3), 1 Head's output, 2 seed, 3 result.
+    `rd`/`wr` play no role here: the discipline is the state property `C03.NoConflict`. -/
+def recurNet (caps : Nat → Nat) (p : Nat) (seed : List Int → Int) (upd : Int → Int → Int) : Network Loc Int where
+  act := fun q l =>
+    match q with
+    | 0 => producer 0 l
+    | 1 => headM 0 1 l
+    | 2 => seedBox p seed 1 2 l
+    | 3 => recurMain upd 2 0 3 l
+    | 4 => sink 3 l
+    | _ => .halt
+  cap := caps
+  rd := fun c => match c with | 0 => 1 | 1 => 2 | 2 => 3 | _ => 4
+  wr := fun c => match c with | 0 => 0 | 1 => 1 | 2 => 2 | _ => 3
+
+def recurInit (xs : List Int) (p : Nat) : St Loc Int where
+  procs := fun q => match q with
+    | 0 => (⟨0, xs⟩, none)
+    | 1 => (⟨0, [(p : Int)]⟩, none)
+    | _ => (⟨0, []⟩, none)
+  chans := fun _ => ([], false)
+
+/-- EMA over the integers with an integer multiplier (for execution against the Go code) -/
+def emaSeedZ (p : Nat) (w : List Int) : Int := w.sum / (p : Int)
+def emaUpdZ (mul : Int) (before n : Int) : Int := (n - before) * mul + before
+
+/-- (terminal reached, clean, values delivered) for Ema(xs, p) with multiplier `mul`, all channels of capacity `cap` -/
+def emaRun (cap p : Nat) (mul : Int) (xs : List Int) : Bool × Bool × List Int :=
+  let N := recurNet (fun _ => cap) p (emaSeedZ p) (emaUpdZ mul)
+  let (s, term) := roundRobin N 6 (40 * (xs.length + p + 4)) (recurInit xs p)
+  (term, allHaltedB N 5 s, (s.procs 4).1.reg)
+
 end NetM
